@@ -184,6 +184,25 @@ where
     Ok(result)
 }
 
+/// Reads exactly `len` bytes whose length was declared by the file itself
+///
+/// The length is untrusted, so the bytes are read up to it instead of being allocated up front;
+/// a short read is reported as `UnexpectedEof`.
+pub fn read_declared_bytes<R: Read>(reader: &mut R, len: usize) -> Result<Vec<u8>> {
+    let mut data = Vec::new();
+    reader
+        .by_ref()
+        .take(len as u64)
+        .read_to_end(&mut data)
+        .map_err(M2Error::Io)?;
+    if data.len() != len {
+        return Err(M2Error::Io(std::io::Error::from(
+            std::io::ErrorKind::UnexpectedEof,
+        )));
+    }
+    Ok(data)
+}
+
 /// Reads raw bytes from an M2Array reference, preserving data for sections we don't fully parse
 pub fn read_raw_bytes<R: Read + Seek>(
     reader: &mut R,
